@@ -66,6 +66,8 @@ class State:
 def _mentions(term, pref):
     """does term (possibly len:X) refer to place pref or a sub-place / super-place of it"""
     t = term[4:] if term.startswith("len:") else term
+    if t.startswith("slice:"):
+        t = t[6:]
     if t == pref:
         return True
     if t.startswith(pref) and t[len(pref)] in ".*@[":
@@ -174,7 +176,7 @@ class Interp:
         self.instates = {}
         self.visits = {}
         self.loop_heads = {h for h, _ in body.loops()}
-        self.ret_states = []
+        self.ret_by_src = {}
 
     # ------------------------------------------------------------------ terms
     def lty(self, l):
@@ -486,6 +488,8 @@ class Interp:
         if b.argc >= 1 and re.match(r"^&(mut )?buffer::Buffer<", self.lty(1)) and not getattr(self.ctx, "no_inv_cursor", False):
             self.add_le(st0, "_1*.cursor", "len:_1*.data*", 0)
             self.uses_inv_cursor = True
+            self.add_le(st0, "_1*.cursor", "ghost:cursor0", 0)
+            self.add_le(st0, "ghost:cursor0", "_1*.cursor", 0)
         self.entry_params(st0)
         self.instates[0] = st0
         work = [0]
@@ -502,6 +506,12 @@ class Interp:
             for succ, so in outs:
                 if so is None:
                     continue
+                sb = b.blocks[succ]
+                if not sb["stmts"] and sb["term"] and sb["term"]["k"] == "ret":
+                    # shared return block: keep one return state per incoming edge (no join)
+                    self.ret_by_src[bi] = so
+                    self.instates.setdefault(succ, so)
+                    continue
                 old = self.instates.get(succ)
                 if old is None:
                     self.instates[succ] = so
@@ -515,6 +525,10 @@ class Interp:
                         if succ not in work:
                             work.append(succ)
         return self
+
+    @property
+    def ret_states(self):
+        return sorted(self.ret_by_src.items())
 
     def state_before_term(self, bi):
         st = self.instates.get(bi)
@@ -536,7 +550,7 @@ class Interp:
         if k == "goto":
             return [(t["t"], st)]
         if k == "ret":
-            self.ret_states.append((bi, st))
+            self.ret_by_src[bi] = st
             return []
         if k in ("unreach", "resume", "abort"):
             return []
@@ -1076,11 +1090,28 @@ class Interp:
         args = t["args"]
         dt = self.term(dest, st) if dest[1] else "_%d" % dest[0]
         pre_range = None
-        if "fn" in t and callee_key(t["fn"]).split("@")[0].endswith("::next") and args:
-            itt = self.container(args[0], st)
-            pre_range = (itt, st.ranges.get(itt)) if itt else None
+        pre_iters = None
+        if "fn" in t and args:
+            k0 = callee_key(t["fn"]).split("@")[0]
+            if k0.endswith("::next"):
+                itt = self.container(args[0], st)
+                pre_range = (itt, st.ranges.get(itt)) if itt else None
+            if k0.endswith("::position"):
+                itt = self.container(args[0], st)
+                v00 = self.op_val(args[0], st)
+                pre_iters = st.iters.get(itt) or (st.iters.get(v00) if isinstance(v00, str) else None)
+        dec = None
+        if "fn" in t and path_is_decode_string(t["fn"]) and len(args) >= 2:
+            # decoder contract (checked per impl by C17): *cursor advances by at most data.len()
+            x = st.refs.get(self.op_val(args[1], st)) if isinstance(self.op_val(args[1], st), str) else None
+            c0 = self.container(args[0], st)
+            sd = st.subdef.get("len:" + c0) if c0 else None
+            if x and sd and isinstance(sd[1], str) and self.leq(st, x, sd[1], 0):
+                dec = (x, sd[0])
         # effects on arguments: anything reachable through a &mut argument may change
         self.call_kills(t, st)
+        if dec:
+            self.add_le(st, dec[0], dec[1], 0)
         if dest[1] == []:
             st.alias.pop(dt, None)
             st.refs.pop(dt, None)
@@ -1145,12 +1176,7 @@ class Interp:
             return
         if base in ("Iterator::position", "Iter::position") or (meth == "position"):
             # payload < count of the iterator
-            it = None
-            if a0 and a0[0] in ("copy", "move"):
-                it = self.container(a0, st)  # &mut iter -> iter term
-                itv = st.iters.get(it) or st.iters.get(v0 if isinstance(v0, str) else None)
-            else:
-                itv = None
+            itv = pre_iters
             p = dt + "@1.0"
             self.set_iv(st, p, 0, ISIZE_MAX)
             for b, k in (itv or []):
@@ -1220,6 +1246,33 @@ class Interp:
             if isinstance(v0, int) or (src_ty in INT_RANGES):
                 self.add_eq(st, dt + "@0.0", v0, 0) if isinstance(v0, str) else None
             return
+        if (key.startswith("Index::index@") or key.startswith("IndexMut::index_mut@")) and "Range" in key and len(args) > 1:
+            parts = key.split("@")
+            if parts[1] not in ("str", "String"):
+                c = self.container(a0, st)
+                rt = v1
+                if c and isinstance(rt, str):
+                    self._make_slice(st, dt, c, rt, parts[2])
+            return
+        if base in ("slice::get", "Vec::get", "slice::get_mut") and "Range" in key and len(args) > 1:
+            c = self.container(a0, st)
+            rt = v1
+            if c and isinstance(rt, str):
+                kind = key.split("::<")[-1] if "::<" in key else key
+                rk = [x for x in ("RangeFrom", "RangeToInclusive", "RangeTo", "RangeInclusive", "Range") if x in (fn.get("pretty") or "")]
+                if rk:
+                    s_, e_ = self._range_vals(st, rt)
+                    ln = "len:" + c
+                    if rk[0] == "Range":
+                        st.cond.setdefault((dt, 1), []).extend([("le", e_, ln, 0), ("le", s_, e_, 0)])
+                    elif rk[0] == "RangeTo":
+                        st.cond.setdefault((dt, 1), []).append(("le", e_, ln, 0))
+                    elif rk[0] == "RangeFrom":
+                        st.cond.setdefault((dt, 1), []).append(("le", s_, ln, 0))
+                    self._make_slice(st, dt + "@1.0", c, rt, rk[0] + "<")
+            return
+        if path_is_decode_string(fn) and len(args) >= 2:
+            return  # handled in exec_call prologue (needs the pre-call state)
         if base in ("slice::first", "slice::last", "Vec::first", "Vec::last", "slice::first_mut", "slice::last_mut"):
             c = self.container(a0, st)
             if c:
@@ -1331,6 +1384,32 @@ class Interp:
 
     def _deref_val(self, st, t):
         return t
+
+    def _range_vals(self, st, rt):
+        def fld(name):
+            t = "%s.%s" % (rt, name)
+            iv = st.iv.get(t)
+            if iv and iv[0] == iv[1]:
+                return iv[0]
+            return t
+        return fld("start"), fld("end")
+
+    def _make_slice(self, st, dt, c, rt, rkind):
+        """dt is a reference to a sub-slice of container c selected by the range value rt"""
+        sl = "slice:" + dt
+        st.refs[dt] = sl
+        s_, e_ = self._range_vals(st, rt)
+        ln, lc = "len:" + sl, "len:" + c
+        self.set_iv(st, ln, 0, ISIZE_MAX)
+        if rkind.startswith("RangeFrom<"):
+            st.subdef[ln] = (lc, s_)
+            self.add_le(st, ln, lc, 0)
+        elif rkind.startswith("RangeTo<"):
+            self.add_eq(st, ln, e_, 0) if isinstance(e_, str) else self.set_iv(st, ln, e_, e_)
+        elif rkind.startswith("Range<"):
+            st.subdef[ln] = (e_, s_)
+            self.add_le(st, ln, e_, 0)
+            self.add_le(st, ln, lc, 0)
 
     def _rename_facts(self, st, src, dst):
         self.copy_facts(st, src, dst)
@@ -1583,6 +1662,11 @@ class Interp:
             st.variants[dt] = variants[0]
             for g in st.cond.get((dt, variants[0]), []):
                 self.apply_fact(st, g)
+
+
+def path_is_decode_string(fn):
+    p = fn.get("res") or fn["raw"]
+    return p.endswith("::decode_string") and ("StringDecoder" in fn["raw"] or "buffer::" in p or "unreal2" in p)
 
 
 def _split_tuple(s):
